@@ -12,4 +12,5 @@ def run(ck):
     codec.spec_socks_request_reader(ck, 'PasswordAuth')
     replies.spec_socks_handshake(ck)
     replies.spec_auth_check(ck)
+    replies.spec_auth_cache(ck)
     ck.post_filter = lambda o: o.label.startswith('C07/') or o.status in ('undecided', 'vacuous', 'inconclusive')
